@@ -76,9 +76,10 @@ def oracle_fwd_grad(ck, dims, m, J, filt, shape, chan=1):
         padded = m in (1, 4, 6) and any(pad_total(n, L) > 0 for n in sizes)
         short = per_short_fwd(sizes, L, m)
     else:
-        sh, _ = level_sizes(shape[-2], L, m, J); sw, _ = level_sizes(shape[-1], L, m, J)
-        padded = m in (1, 4, 6) and any(pad_total(n, L) > 0 for n in sh + sw)
-        short = per_short_fwd(sh, L, m) or per_short_fwd(sw, L, m)
+        Lr = len(filt[2]) if len(filt) == 4 else L          # a 4-tuple wave: (col lo, col hi, row lo, row hi), lengths may differ per axis
+        sh, _ = level_sizes(shape[-2], L, m, J); sw, _ = level_sizes(shape[-1], Lr, m, J)
+        padded = m in (1, 4, 6) and (any(pad_total(n, L) > 0 for n in sh) or any(pad_total(n, Lr) > 0 for n in sw))
+        short = per_short_fwd(sh, L, m) or per_short_fwd(sw, Lr, m)
     kk = KF_AFB if padded else (KF_PER if short else None)
     from ..gradcheck import pull_variants
     g = None
@@ -121,7 +122,8 @@ def oracle_inv_grad(ck, dims, m, J, filt, size, mask):
         shapes = [(1, 1, nl)] + [(1, 1, h) for h in hs]
         lo_sizes = hs
     else:
-        hh, nlh = pyramid_shapes_1d(size[0], L, m, J); hw, nlw = pyramid_shapes_1d(size[1], L, m, J)
+        Lr = len(filt[2]) if len(filt) == 4 else L
+        hh, nlh = pyramid_shapes_1d(size[0], L, m, J); hw, nlw = pyramid_shapes_1d(size[1], Lr, m, J)
         shapes = [(1, 1, nlh, nlw)] + [(1, 1, 3, a, b) for a, b in zip(hh, hw)]
         lo_sizes = hh + hw
     desc = '%dD inverse-module gradient mode=%s J=%d L=%d size=%s requires_grad mask=%s' % (dims, gen.MODE_NAME[m], J, L, size, bin(mask))
@@ -137,8 +139,12 @@ def oracle_inv_grad(ck, dims, m, J, filt, size, mask):
         return None
     g = T(gen.int_tensor(rng, tuple(y.shape)))
     # out lengths of the synthesis at each level decide whether the padded analysis used by backward pads at all
-    padded = m in (1, 4, 6) and L > 2
-    short = per_short_inv(lo_sizes, L, m) or (m == 2 and any(evenlen(2 * n) < L for n in lo_sizes))
+    if dims == 2 and len(filt) == 4:
+        padded = m in (1, 4, 6) and max(L, Lr) > 2
+        short = per_short_inv(hh, L, m) or per_short_inv(hw, Lr, m) or (m == 2 and (any(evenlen(2 * n) < L for n in hh) or any(evenlen(2 * n) < Lr for n in hw)))
+    else:
+        padded = m in (1, 4, 6) and L > 2
+        short = per_short_inv(lo_sizes, L, m) or (m == 2 and any(evenlen(2 * n) < L for n in lo_sizes))
     kk = KF_SFB if padded else (KF_PER if short else None)
     need = [t for t in ins if t.requires_grad]
     from ..gradcheck import pull_variants
@@ -274,6 +280,14 @@ def oracle(ck, extended):
                 rt.guard(ck, oracle_inv_grad, ck, 1, m_, 1, f4, 8, 3)
         finally:
             FORCE[0] = None
+    # one wavelet PER AXIS (the documented 4-tuple form), tap counts that differ between the axes: every place where the backward pass
+    # pairs an axis with a filter length has to pair it with its own
+    for (Lc_, Lr_) in ((4, 6), (6, 2), (2, 8)) + (() if q else ((8, 4), (4, 10), (10, 6))):
+        f44 = (gen.int_filter(rng, Lc_), gen.int_filter(rng, Lc_), gen.int_filter(rng, Lr_), gen.int_filter(rng, Lr_))
+        for m_ in (0, 2):
+            rt.guard(ck, oracle_fwd_grad, ck, 2, m_, 1, f44, (gen.pick_len(rng, Lc_, 8) + 2, gen.pick_len(rng, Lr_, 8) + 2))
+            rt.guard(ck, oracle_fwd_grad, ck, 2, m_, 2, f44, (2 * Lc_ + 2, 2 * Lr_ + 4))
+            rt.guard(ck, oracle_inv_grad, ck, 2, m_, 1, f44, [Lc_ + 4, Lr_ + 3], 3)
     n = (70 if q else 500) * (3 if extended else 1)
     for it in range(n):
         L = 2 * rng.randint(1, 4 if q else 6); m = rng.choice(gen.MODES5); J = rng.randint(1, 2 if q else 3)    # wavelets have even length
